@@ -16,9 +16,9 @@ from engines import cassettes as C
 PROP = 'C05'
 SAMPLING = [('rate1', 1.0, None), ('rate0', 0.0, 0.5), ('frac_in', 0.5, 0.1), ('frac_out', 0.5, 0.9)]
 KINDS_IN = ['key_unbuildable', 'handler_raises', 'discard_in_body', 'interrupt_in_body', 'discard_before', 'raise_before',
-            'interrupt_before', 'force_before', 'fallback_raises', 'resolver_raises', 'disable_in_body', 'disable_in_body_handler_raises']
+            'interrupt_before', 'force_before', 'fallback_raises', 'resolver_raises', 'disable_in_body', 'disable_in_body_handler_raises', 'discard_in_body_handler_raises']
 KINDS_OUT = ['handler_raises', 'discard_in_body', 'interrupt_in_body', 'discard_before', 'raise_before', 'interrupt_before',
-             'force_before', 'disable_in_body', 'disable_in_body_handler_raises', 'disable_in_handler']
+             'force_before', 'disable_in_body', 'disable_in_body_handler_raises', 'disable_in_handler', 'discard_in_body_handler_raises']
 
 META = {
     'engine': 'recplay',
